@@ -276,69 +276,130 @@ Proof.
   split; [apply variants_spec; assumption|]. rewrite (nth_of_nth_error _ _ _ Hk). exact Ht.
 Qed.
 
-Lemma step_classes acc sites x o : classes (fst (step acc sites x o)) = def_step (classes x) o.
+(* ---- registry keys ---- *)
+
+Lemma rkey_eqb_eq a b : rkey_eqb a b = true <-> a = b.
 Proof.
-  destruct o as [ps tg tu rq | i t present]; cbn; [reflexivity|].
-  destruct (nth_error sites i) as [s|]; [|reflexivity].
-  destruct (negb (site_ok s (length (classes x)))); [reflexivity|].
-  destruct (s_field s); [|reflexivity].
-  destruct t as [t|]; [|reflexivity].
-  unfold decode_field. destruct (reg_get t (get_reg i (regs x))); [reflexivity|].
-  destruct (reg_get t _); reflexivity.
+  destruct a as [a1 a2], b as [b1 b2]. unfold rkey_eqb. cbn. rewrite andb_true_iff, !Nat.eqb_eq.
+  split; [intros [-> ->]; reflexivity | intros E; injection E as -> ->; split; reflexivity].
 Qed.
 
-Lemma fold_classes acc sites ops : forall x,
-  classes (fold_left (fun x o => fst (step acc sites x o)) ops x) = fold_left def_step ops (classes x).
+Lemma find_idx_nth {A} (p: A -> bool) l : forall i j a,
+  find_idx p l i = Some (j, a) -> i <= j /\ nth_error l (j - i) = Some a.
 Proof.
-  induction ops as [|o r IH]; intros x; cbn; [reflexivity|].
-  rewrite IH. rewrite step_classes. reflexivity.
+  induction l as [|b l IH]; intros i j a; cbn; [discriminate|].
+  destruct (p b).
+  - intros E. injection E as <- <-. split; [lia|]. rewrite Nat.sub_diag. reflexivity.
+  - intros E. apply IH in E. destruct E as [L E]. split; [lia|].
+    replace (j - i) with (S (j - S i)) by lia. exact E.
 Qed.
 
-Lemma final_classes acc sites ops : classes (final acc sites ops) = defs ops.
-Proof. unfold final. rewrite fold_classes. reflexivity. Qed.
+Lemma config_site_nth sites c j sj : config_site sites c = Some (j, sj) -> nth_error sites j = Some sj.
+Proof.
+  unfold config_site. intros E. apply find_idx_nth in E. destruct E as [_ E].
+  rewrite Nat.sub_0_r in E. exact E.
+Qed.
 
-(* the invariant: every registry of every site only holds true bindings *)
+(* the settings that govern the registry stored under a key *)
+Definition key_site (sites: list site) (k: rkey) : option site :=
+  match snd k with
+  | 0 => nth_error sites (fst k)
+  | S c => match config_site sites c with Some (_, sj) => Some sj | None => None end
+  end.
+
+(* the invariant: every registry (of every site, of every nested dispatcher) only holds true bindings *)
 Definition reg_sound (sites: list site) (x: st) : Prop :=
-  forall i s t c, nth_error sites i = Some s -> In (t, c) (get_reg i (regs x)) -> carries (classes x) s c t.
+  forall k s t c, key_site sites k = Some s -> In (t, c) (get_reg k (regs x)) -> carries (classes x) s c t.
 
-Lemma reg_sound_step acc sites x o : wf (classes x) -> reg_sound sites x -> reg_sound sites (fst (step acc sites x o)).
+Lemma get_reg_reset top vs : forall rs k (e: tag * nat),
+  In e (get_reg k (reset_nested top vs rs)) -> In e (get_reg k rs).
 Proof.
-  intros W S. destruct o as [ps tg tu rq | i t present].
-  - cbn. intros j s t c Hs Hin. cbn in *. apply carries_mono. eapply S; eassumption.
-  - cbn. destruct (nth_error sites i) as [s|] eqn:Es; [|exact S].
-    destruct (negb (site_ok s (length (classes x)))) eqn:OK; [exact S|].
+  unfold reset_nested. induction vs as [|v vs IH]; intros rs k e; cbn [fold_left]; [intros H; exact H|].
+  intros H. apply IH in H. cbn in H. destruct (rkey_eqb k (top, S v)); [destruct H | exact H].
+Qed.
+
+Section Dispatch.
+  Variable acc : cls -> list nat -> bool.
+  Variable sites : list site.
+
+  Lemma dispatch_inv : forall fuel top codec k s x t,
+    wf (classes x) -> reg_sound sites x -> key_site sites k = Some s ->
+    classes (fst (dispatch sites fuel top codec k s x t)) = classes x
+    /\ reg_sound sites (fst (dispatch sites fuel top codec k s x t)).
+  Proof.
+    induction fuel as [|f IH]; intros top codec k s x t W RS K; cbn [dispatch]; [split; [reflexivity | exact RS]|].
+    destruct (negb (site_ok s (length (classes x)))) eqn:OK; [split; [reflexivity | exact RS]|].
     apply negb_false_iff in OK.
-    destruct (s_field s); [|exact S].
-    destruct t as [t|]; [|exact S].
-    unfold decode_field. destruct (reg_get t (get_reg i (regs x))) eqn:G; [cbn; exact S|].
-    assert (S': reg_sound sites (St (classes x) ((i, refill (classes x) s (get_reg i (regs x))) :: regs x))).
-    { intros j s' t' c' Hs Hin. cbn in *. destruct (Nat.eqb j i) eqn:E.
-      - apply Nat.eqb_eq in E. subst j. rewrite Es in Hs. injection Hs as <-.
-        apply refill_sound in Hin; [|exact W|exact OK]. destruct Hin as [Hin|Hin]; [|exact Hin].
-        eapply S; eassumption.
-      - eapply S; eassumption. }
-    destruct (reg_get t (refill (classes x) s (get_reg i (regs x)))); cbn; exact S'.
-Qed.
+    assert (ENTER: forall x1 c, classes x1 = classes x -> reg_sound sites x1 ->
+      let r := match config_site sites c with
+               | None => (x1, OInst c)
+               | Some (j, sj) => if s_field sj
+                                 then dispatch sites f top codec (if codec then (top, S c) else (j, 0)) sj x1 t
+                                 else (x1, ONotFound)
+               end in
+      classes (fst r) = classes x /\ reg_sound sites (fst r)).
+    { intros x1 c E1 S1. destruct (config_site sites c) as [[j sj]|] eqn:C; cbn; [|split; assumption].
+      destruct (s_field sj); [|cbn; split; assumption].
+      assert (K': key_site sites (if codec then (top, S c) else (j, 0)) = Some sj).
+      { destruct codec; unfold key_site; cbn; [rewrite C; reflexivity | eapply config_site_nth; exact C]. }
+      destruct (IH top codec _ sj x1 t (eq_ind_r wf W E1) S1 K') as [E2 S2].
+      split; [congruence | exact S2]. }
+    destruct (reg_get t (get_reg k (regs x))) as [c|] eqn:G.
+    - apply ENTER; [reflexivity | exact RS].
+    - set (r' := refill (classes x) s (get_reg k (regs x))).
+      set (rs := if codec then reset_nested top (built (classes x) s) (regs x) else regs x).
+      assert (S': reg_sound sites (St (classes x) ((k, r') :: rs))).
+      { intros k2 s2 t2 c2 K2 Hin. cbn in *. destruct (rkey_eqb k2 k) eqn:E.
+        - apply rkey_eqb_eq in E. subst k2. rewrite K in K2. injection K2 as <-.
+          apply refill_sound in Hin; [|exact W|exact OK]. destruct Hin as [Hin|Hin]; [|exact Hin].
+          eapply RS; eassumption.
+        - eapply RS; [exact K2|]. unfold rs in Hin. destruct codec; [eapply get_reg_reset; exact Hin | exact Hin]. }
+      destruct (reg_get t r') as [c|].
+      + apply (ENTER (St (classes x) ((k, r') :: rs)) c); [reflexivity | exact S'].
+      + split; [reflexivity | exact S'].
+  Qed.
 
-Lemma inv_fold acc sites ops : forall x, wf (classes x) -> reg_sound sites x ->
-  reg_sound sites (fold_left (fun x o => fst (step acc sites x o)) ops x).
-Proof.
-  induction ops as [|o r IH]; intros x W S; cbn; [exact S|].
-  apply IH.
-  - rewrite step_classes. destruct o; cbn; [apply wf_define; exact W | exact W].
-  - apply reg_sound_step; assumption.
-Qed.
+  Lemma reg_sound_step x o : wf (classes x) -> reg_sound sites x ->
+    classes (fst (step acc sites x o)) = def_step (classes x) o /\ reg_sound sites (fst (step acc sites x o)).
+  Proof.
+    intros W RS. destruct o as [ps tg tu rq | i t present]; cbn [step].
+    - split; [reflexivity|]. intros k s t c K Hin. cbn in *. apply carries_mono. eapply RS; eassumption.
+    - destruct (nth_error sites i) as [s|] eqn:Es; [|split; [reflexivity | exact RS]].
+      destruct (negb (site_ok s (length (classes x)))) eqn:OK; [split; [reflexivity | exact RS]|].
+      destruct (s_field s); [|split; [reflexivity | exact RS]].
+      destruct t as [t|]; [|split; [reflexivity | exact RS]].
+      assert (K: key_site sites (i, 0) = Some s) by exact Es.
+      pose proof (dispatch_inv (S (S (length (classes x)))) i (s_codec s) (i, 0) s x t W RS K) as [E1 S1].
+      destruct (dispatch sites (S (S (length (classes x)))) i (s_codec s) (i, 0) s x t) as [x' o]. cbn in *.
+      split; assumption.
+  Qed.
 
-Theorem registry_invariant acc sites ops : reg_sound sites (final acc sites ops).
-Proof.
-  unfold final. apply inv_fold; [apply wf_nil|]. intros i s t c _ H. cbn in H. destruct i; destruct H.
-Qed.
+  Lemma fold_inv ops : forall x, wf (classes x) -> reg_sound sites x ->
+    classes (fold_left (fun x o => fst (step acc sites x o)) ops x) = fold_left def_step ops (classes x)
+    /\ reg_sound sites (fold_left (fun x o => fst (step acc sites x o)) ops x).
+  Proof.
+    induction ops as [|o r IH]; intros x W RS; cbn [fold_left]; [split; [reflexivity | exact RS]|].
+    destruct (reg_sound_step x o W RS) as [E1 S1].
+    assert (W1: wf (classes (fst (step acc sites x o)))).
+    { rewrite E1. destruct o; cbn; [apply wf_define; exact W | exact W]. }
+    destruct (IH _ W1 S1) as [E2 S2]. split; [rewrite E2, E1; reflexivity | exact S2].
+  Qed.
 
-Corollary registry_invariant' acc sites ops i s t c :
-  nth_error sites i = Some s -> In (t, c) (get_reg i (regs (final acc sites ops))) -> carries (defs ops) s c t.
-Proof.
-  intros Hs Hin. rewrite <- (final_classes acc sites ops). eapply registry_invariant; eassumption.
-Qed.
+  Lemma st0_sound : reg_sound sites st0.
+  Proof. intros k s t c _ H. cbn in H. destruct H. Qed.
+
+  Lemma final_classes ops : classes (final acc sites ops) = defs ops.
+  Proof. unfold final. apply (fold_inv ops st0 wf_nil st0_sound). Qed.
+
+  Theorem registry_invariant ops : reg_sound sites (final acc sites ops).
+  Proof. unfold final. apply (fold_inv ops st0 wf_nil st0_sound). Qed.
+
+  Corollary registry_invariant' ops i s t c :
+    nth_error sites i = Some s -> In (t, c) (get_reg (i, 0) (regs (final acc sites ops))) -> carries (defs ops) s c t.
+  Proof.
+    intros Hs Hin. rewrite <- (final_classes ops). eapply registry_invariant; [|exact Hin]. exact Hs.
+  Qed.
+End Dispatch.
 
 (* ------------------------------------------------------------------ *)
 (* the decode events                                                   *)
@@ -355,34 +416,52 @@ Proof.
   - discriminate.
 Qed.
 
-Theorem decode_field_correct acc sites pre i s t present :
-  nth_error sites i = Some s -> s_field s = true -> site_ok s (length (defs pre)) = true ->
-  tag_unique (defs pre) s t ->
-  exists o, snd (step acc sites (final acc sites pre) (Decode i (Some t) present)) = Some o
-            /\ field_spec (defs pre) s t o.
+(* no class that carries the tag is itself a class-level dispatcher (README: a class-level discriminator
+   cannot produce the class that declares it) *)
+Definition plain_carriers (sites: list site) (cl: list cls) (s: site) (t: tag) : Prop :=
+  forall c, carries cl s c t -> config_site sites c = None.
+
+Lemma dispatch_correct sites f top codec k s x t :
+  wf (classes x) -> reg_sound sites x -> key_site sites k = Some s ->
+  site_ok s (length (classes x)) = true ->
+  tag_unique (classes x) s t -> plain_carriers sites (classes x) s t ->
+  field_spec (classes x) s t (snd (dispatch sites (S f) top codec k s x t)).
 Proof.
-  intros Hs Hf OK U.
-  pose proof (registry_invariant acc sites pre) as S.
-  pose proof (wf_defs pre) as W.
-  pose proof (final_classes acc sites pre) as CL.
-  set (x := final acc sites pre) in *.
-  cbn. rewrite Hs. rewrite CL. rewrite OK. cbn. rewrite Hf.
-  unfold decode_field. rewrite CL.
-  destruct (reg_get t (get_reg i (regs x))) as [c|] eqn:G.
-  - exists (OInst c). split; [reflexivity|]. apply field_spec_of_carrier; [exact U|].
-    rewrite <- CL. eapply S; [exact Hs | apply reg_get_In; exact G].
-  - destruct (reg_get t (refill (defs pre) s (get_reg i (regs x)))) as [c|] eqn:G'.
-    + exists (OInst c). split; [reflexivity|]. apply field_spec_of_carrier; [exact U|].
-      apply reg_get_In in G'. apply refill_sound in G'; [|exact W|exact OK].
-      destruct G' as [G'|G']; [|exact G']. rewrite <- CL. eapply S; eassumption.
-    + exists ONotFound. split; [reflexivity|].
-      assert (NO: forall c, ~ carries (defs pre) s c t).
-      { intros c C. destruct (refill_complete _ _ (get_reg i (regs x)) _ _ W C) as [c' E]. congruence. }
+  intros W RS K OK U P. cbn [dispatch]. rewrite OK. cbn [negb].
+  destruct (reg_get t (get_reg k (regs x))) as [c|] eqn:G.
+  - assert (C: carries (classes x) s c t) by (eapply RS; [exact K | apply reg_get_In; exact G]).
+    rewrite (P c C). cbn. apply field_spec_of_carrier; assumption.
+  - destruct (reg_get t (refill (classes x) s (get_reg k (regs x)))) as [c|] eqn:G'.
+    + assert (C: carries (classes x) s c t).
+      { apply reg_get_In in G'. apply refill_sound in G'; [|exact W|exact OK].
+        destruct G' as [G'|G']; [|exact G']. eapply RS; eassumption. }
+      rewrite (P c C). cbn. apply field_spec_of_carrier; assumption.
+    + cbn.
+      assert (NO: forall c, ~ carries (classes x) s c t).
+      { intros c C. destruct (refill_complete _ _ (get_reg k (regs x)) _ _ W C) as [c' E]. congruence. }
       unfold field_spec. split; [|split; [|split]].
       * intros c. split; [discriminate|]. intros C. exfalso. exact (NO c C).
       * split; [intros _; exact NO | reflexivity].
       * discriminate.
       * discriminate.
+Qed.
+
+Theorem decode_field_correct acc sites pre i s t present :
+  nth_error sites i = Some s -> s_field s = true -> site_ok s (length (defs pre)) = true ->
+  tag_unique (defs pre) s t -> plain_carriers sites (defs pre) s t ->
+  exists o, snd (step acc sites (final acc sites pre) (Decode i (Some t) present)) = Some o
+            /\ field_spec (defs pre) s t o.
+Proof.
+  intros Hs Hf OK U P.
+  pose proof (registry_invariant acc sites pre) as RS.
+  pose proof (wf_defs pre) as W.
+  pose proof (final_classes acc sites pre) as CL.
+  set (x := final acc sites pre) in *.
+  rewrite <- CL in W, OK, U, P |- *.
+  cbn [step]. rewrite Hs. rewrite OK. cbn [negb]. rewrite Hf.
+  pose proof (dispatch_correct sites (S (length (classes x))) i (s_codec s) (i, 0) s x t W RS Hs OK U P) as F.
+  destruct (dispatch sites (S (S (length (classes x)))) i (s_codec s) (i, 0) s x t) as [x' o].
+  exists o. split; [reflexivity | exact F].
 Qed.
 
 Lemma field_spec_functional cl s t o1 o2 : field_spec cl s t o1 -> field_spec cl s t o2 -> o1 = o2.
@@ -397,13 +476,14 @@ Qed.
 Theorem history_independent acc sites1 sites2 pre1 pre2 i1 i2 s t present1 present2 :
   nth_error sites1 i1 = Some s -> nth_error sites2 i2 = Some s -> s_field s = true ->
   defs pre1 = defs pre2 -> site_ok s (length (defs pre1)) = true -> tag_unique (defs pre1) s t ->
+  plain_carriers sites1 (defs pre1) s t -> plain_carriers sites2 (defs pre1) s t ->
   snd (step acc sites1 (final acc sites1 pre1) (Decode i1 (Some t) present1))
   = snd (step acc sites2 (final acc sites2 pre2) (Decode i2 (Some t) present2)).
 Proof.
-  intros H1 H2 Hf E OK U.
-  destruct (decode_field_correct acc sites1 pre1 i1 s t present1 H1 Hf OK U) as [o1 [E1 S1]].
-  rewrite E in OK, U.
-  destruct (decode_field_correct acc sites2 pre2 i2 s t present2 H2 Hf OK U) as [o2 [E2 S2]].
+  intros H1 H2 Hf E OK U P1 P2.
+  destruct (decode_field_correct acc sites1 pre1 i1 s t present1 H1 Hf OK U P1) as [o1 [E1 S1]].
+  rewrite E in OK, U, P2.
+  destruct (decode_field_correct acc sites2 pre2 i2 s t present2 H2 Hf OK U P2) as [o2 [E2 S2]].
   rewrite E in S1. rewrite E1, E2. f_equal. eapply field_spec_functional; eassumption.
 Qed.
 
@@ -414,17 +494,31 @@ Proof.
   intros Hs Hf OK. cbn. rewrite Hs. rewrite final_classes. rewrite OK. cbn. rewrite Hf. reflexivity.
 Qed.
 
+(* no eligible class is itself a class-level dispatcher *)
+Definition no_nested (sites: list site) (cl: list cls) (s: site) : Prop :=
+  forall c, eligible cl s c -> config_site sites c = None.
+
+Lemma find_map_find {A} (f: A -> option A) (p: A -> bool) l :
+  (forall a, In a l -> f a = if p a then Some a else None) -> find_map f l = find p l.
+Proof.
+  induction l as [|a l IH]; intros H; cbn; [reflexivity|].
+  rewrite (H a (or_introl eq_refl)). destruct (p a); [reflexivity|]. apply IH. intros b Hb. apply H. right. exact Hb.
+Qed.
+
 Theorem nofield_correct acc sites pre i s t present :
   nth_error sites i = Some s -> s_field s = false -> site_ok s (length (defs pre)) = true ->
+  no_nested sites (defs pre) s ->
   exists o, step acc sites (final acc sites pre) (Decode i t present) = (final acc sites pre, Some o)
             /\ nofield_spec acc (defs pre) s present o.
 Proof.
-  intros Hs Hf OK.
+  intros Hs Hf OK NN.
   pose proof (wf_defs pre) as W.
   pose proof (final_classes acc sites pre) as CL.
-  cbn. rewrite Hs. rewrite CL. rewrite OK. cbn. rewrite Hf.
+  cbn [step]. rewrite Hs. rewrite CL. rewrite OK. cbn [negb]. rewrite Hf.
   eexists. split; [reflexivity|]. unfold decode_nofield. rewrite CL.
   set (p := fun c => acc (nth c (defs pre) dummy_cls) present).
+  rewrite (find_map_find _ p).
+  2:{ intros c Hc. cbn [try_cls]. rewrite (NN c); [reflexivity|]. apply variants_spec; assumption. }
   unfold nofield_spec. fold p.
   destruct (find p (variants (defs pre) s)) as [c|] eqn:F.
   - split; [|split; [|split]].
